@@ -205,6 +205,23 @@ class RefGeom:
         return self._f2p(np.asarray(f, dtype=float))
 
 
+def other_grid_geometry(shape):
+    """A different-but-compatible identity-like geometry for arrays of the given shape: Continuous1D (resp.
+    Continuous2D) on a grid with the same number of nodes as, but other coordinates than, every grid of the
+    catalogue (those start at 0 or 1).  It never compares equal to a catalogue geometry."""
+    import cuqi
+    G = cuqi.geometry
+    if len(shape) == 1:
+        return G.Continuous1D(10.0 + 0.5 * np.arange(shape[0]))
+    return G.Continuous2D((10.0 + 0.5 * np.arange(shape[0]), 20.0 + 0.5 * np.arange(shape[1])))
+
+
+def int_point(n, k):
+    """Integer-valued generic point with small non-zero entries (representable in every dtype of the dtype facet)."""
+    base = [1, -2, 2, -1]
+    return np.array([base[(i + k) % len(base)] for i in range(n)], dtype=float)
+
+
 # ----------------------------------------------------------------------------------------------
 # models
 # ----------------------------------------------------------------------------------------------
@@ -276,6 +293,9 @@ def build_model(name, gd, gr, k):
             out.model = cuqi.model.LinearModel(forward, adjoint, range_geometry=gr.arg, domain_geometry=gd.arg)
         out.has_grad = True
         out.f = lambda xf: (Al @ np.asarray(xf, float).reshape(-1)).reshape(rshape)
+        # dense adjoint on plain function arrays (range fun-shaped in, domain fun-shaped out), transposed index by index
+        AlT = np.array([[Al[i, j] for i in range(mf)] for j in range(nf)])
+        out.fT = lambda yf: (AlT @ np.asarray(yf, float).reshape(-1)).reshape(dshape)
         return out
 
     # ---- PDE based -------------------------------------------------------------------------
